@@ -1435,3 +1435,114 @@ def s_size_of_text(m, args, kw, node):
     x = m.force(args[0], node)
     f = z3.Function("uf_sizeof", z3.IntSort(), z3.IntSort())
     return Sym(f(m.z(x)), "int")
+
+
+def _flat_reals(m, v, node):
+    v = m.force(v, node)
+    if type(v).__name__ == "SArr":
+        return list(v.data)
+    if isinstance(v, (SList, tuple)):
+        out = []
+        for x in (v.items if isinstance(v, SList) else v):
+            out.extend(_flat_reals(m, x, node))
+        return out
+    return [v]
+
+
+@specfn("is_gradient")
+def s_is_gradient(m, args, kw, node):
+    """is_gradient(f, x, g): g[j] is the partial derivative of f(x) with respect to x[j], for every j.
+    f is evaluated once, symbolically, on the input array x (whose elements must be input constants); the claim is
+    handed to the analytic back end (pyvc/analytic.py)."""
+    from . import analytic
+
+    f, x, g = args[0], m.force(args[1], node), m.force(args[2], node)
+    val = m.call_function(f, [x], {}, node)
+    vals = _flat_reals(m, val, node)
+    if len(vals) != 1:
+        raise Unsupported("is_gradient: value is not a scalar", node)
+    xs = _flat_reals(m, x, node)
+    gs = _flat_reals(m, g, node)
+    if len(xs) != len(gs):
+        return False
+    vz = m.z(vals[0], "real")
+    out = []
+    for xj, gj in zip(xs, gs):
+        if not (isinstance(xj, Sym) and z3.is_const(xj.t) and xj.t.decl().kind() == z3.Z3_OP_UNINTERPRETED):
+            raise Unsupported("is_gradient: differentiation variable is not a symbolic input", node)
+        out.append(analytic.pred_deriv()(vz, xj.t, m.z(gj, "real")))
+    return m.mk(z3.And(*out) if len(out) != 1 else out[0], "bool")
+
+
+@specfn("analytic_eq")
+def s_analytic_eq(m, args, kw, node):
+    """the two real-analytic expressions are identical as functions of the inputs (decided by the analytic back end)"""
+    from . import analytic
+
+    a = _flat_reals(m, args[0], node)
+    b = _flat_reals(m, args[1], node)
+    if len(a) != len(b):
+        return False
+    out = [analytic.pred_eq()(m.z(x, "real"), m.z(y, "real")) for x, y in zip(a, b)]
+    return m.mk(z3.And(*out) if len(out) != 1 else out[0], "bool")
+
+
+def _spec_uf(name):
+    def fn(m, args, kw, node):
+        from . import lib
+
+        return lib.EXTERNAL[name](m, args, kw, node)
+
+    return fn
+
+
+SPEC_BUILTINS["std_normal_cdf"] = NativeFn("std_normal_cdf", _spec_uf("scipy.stats.norm.cdf"))
+SPEC_BUILTINS["std_normal_pdf"] = NativeFn("std_normal_pdf", _spec_uf("scipy.stats.norm.pdf"))
+SPEC_BUILTINS["real_exp"] = NativeFn("real_exp", _spec_uf("numpy.exp"))
+SPEC_BUILTINS["real_log"] = NativeFn("real_log", _spec_uf("numpy.log"))
+SPEC_BUILTINS["real_sqrt"] = NativeFn("real_sqrt", _spec_uf("numpy.sqrt"))
+SPEC_BUILTINS["real_pow"] = NativeFn("real_pow", _spec_uf("numpy.power"))
+SPEC_BUILTINS["real_expm1"] = NativeFn("real_expm1", _spec_uf("numpy.expm1"))
+
+
+@specfn("is_finite")
+def s_is_finite(m, args, kw, node):
+    """the float is neither NaN nor infinite (A-REAL: every real is finite; only flagged values are not)"""
+    v = m.force(args[0], node)
+    if isinstance(v, NanReal):
+        f = v.isnan
+        return (not f) if isinstance(f, bool) else m.mk(z3.Not(f), "bool")
+    return True
+
+
+@specfn("joint_jitter")
+def s_joint_jitter(m, args, kw, node):
+    """the total diagonal term (initial value + jitter found by the search) of the last AddJitterOp call"""
+    if not m.ghost_jitter:
+        raise Unsupported("joint_jitter: no AddJitterOp call on this path", node)
+    return m.ghost_jitter[-1]
+
+
+@specfn("analytic_eq_mod")
+def s_analytic_eq_mod(m, args, kw, node):
+    """analytic_eq modulo the defining equations F F^T = A of the Cholesky factors created on this path: if ``got`` is (as a
+    polynomial) an entry of some F F^T, the claim becomes  A_ij == want  for the analytic back end; otherwise the plain
+    equality is left to z3 (which can refute it with a counter-model)"""
+    from . import analytic
+
+    got = m.z(m.force(args[0], node), "real")
+    want = m.z(m.force(args[1], node), "real")
+    for P, a in m.path_cache.get("chol_defs", []):
+        s = z3.Solver()
+        s.set("timeout", 1000)
+        s.add(got != P)
+        if s.check() == z3.unsat:
+            return m.mk(analytic.pred_eq()(a, want), "bool")
+    return m.mk(got == want, "bool")
+
+
+@specfn("real_pi")
+def s_real_pi(m, args, kw, node):
+    from . import lib
+
+    return lib.CONSTANTS["numpy.pi"](m)
